@@ -6,7 +6,9 @@ From Coq Require Import String List NArith Bool.
 From J5V.lib Require Import Outcome Strcase.
 From J5V.model Require Import J5sRefSpec J5sAst Desc J5sWalk J5sLink J5sConvert J5sContract J5sSymbols J5sTypeNames J5sValid J5sCorr.
 From J5V.gen Require ImportsGen.
-From J5V.proofs Require Import J5sProofs J5sContractProofs J5sLinkProofs J5sResolveProofs J5sResolveCompleteProofs J5sServiceProofs J5sTotalProofs J5sSymbolProofs J5sCompileProofs J5sSubPkgProofs J5sDepsProofs J5sNameProofs J5sTypeNameProofs J5sWitnessProofs J5sStrictProofs StrcaseProofs J5sStrcaseProofs J5sInfraProofs J5sRefSpecProofs.
+From J5V.model Require RulesDecl RulesWrite.
+From Coq Require Import ZArith.
+From J5V.proofs Require Import J5sProofs J5sContractProofs J5sLinkProofs J5sResolveProofs J5sResolveCompleteProofs J5sServiceProofs J5sTotalProofs J5sSymbolProofs J5sCompileProofs J5sSubPkgProofs J5sDepsProofs J5sNameProofs J5sTypeNameProofs J5sWitnessProofs J5sStrictProofs StrcaseProofs J5sStrcaseProofs J5sInfraProofs J5sRefSpecProofs J5sRulesCompose.
 Import ListNotations.
 Local Open Scope N_scope.
 
@@ -436,6 +438,47 @@ Proof.
   split; [exact (topic_imports_from_go_table snake camel screaming)|exact (method_imports_from_go_table snake camel screaming)].
 Qed.
 Print Assumptions C02_construct_imports.
+
+(* ---- C02 (structure) x C12 / C04 (validation rules, list rules, annotations): family scha's
+   writer model (model/RulesWrite.v write_prop: buildField / buildProperty with every rule arm,
+   key annotations, list rules) composed with the C02 contract on a property.  [erase] forgets
+   rules, list rules, key annotations, description.  (1) whatever write_prop emits satisfies the
+   C02 structural contract of the erased property; (2) so the structure - proto name, JSON
+   name, number, proto type, cardinality, optionality - does not depend on rule values (nor on
+   the enum environment the rules are read in); (3) and it is the structure the C02 converter
+   produces for the erased property: the two models agree where they overlap *)
+Theorem C02_rules_output_satisfies_structure : forall env idx d o,
+  RulesWrite.write_prop env idx d = Ok o ->
+  field_decl_ok to_snake false (idx + 1) (erase d) (structure_of o).
+Proof. exact rules_output_satisfies_structure. Qed.
+Print Assumptions C02_rules_output_satisfies_structure.
+
+Theorem C02_structure_independent_of_rules : forall env env' idx d d' o o',
+  erase d = erase d' ->
+  RulesWrite.write_prop env idx d = Ok o -> RulesWrite.write_prop env' idx d' = Ok o' ->
+  structure_of o = structure_of o'.
+Proof. exact structure_independent_of_rules. Qed.
+Print Assumptions C02_structure_independent_of_rules.
+
+Theorem C02_rules_model_agrees_on_structure : forall camel screaming ev path env idx d o r,
+  RulesWrite.write_prop env idx d = Ok o ->
+  cv_property to_snake camel screaming ev path false (idx + 1) (erase d) = Ok r ->
+  exists df, pr_fields r = [df] /\ same_structure df (structure_of o).
+Proof. exact rules_model_agrees_with_c02. Qed.
+Print Assumptions C02_rules_model_agrees_on_structure.
+
+Example C02_rules_compose_example :
+  let env := RulesDecl.EE [] None [] in
+  let with_rules := RulesDecl.P (b "age") true false
+        (RulesDecl.PSingle (RulesDecl.TInt RulesDecl.I32
+            (Some (RulesDecl.IR (Some 0%Z) (Some 150%Z) None (Some true)))
+            (Some (RulesDecl.LP true true false false [])))) [] in
+  let plain := RulesDecl.P (b "age") true false (RulesDecl.PSingle (RulesDecl.TInt RulesDecl.I32 None None)) [] in
+  erase with_rules = erase plain /\
+  exists o o', RulesWrite.write_prop env 2 with_rules = Ok o /\ RulesWrite.write_prop env 2 plain = Ok o' /\
+               RulesDecl.fo_val o <> RulesDecl.fo_val o' /\ structure_of o = structure_of o' /\
+               f_num (structure_of o) = 3 /\ f_type (structure_of o) = TInt32.
+Proof. exact rules_compose_example. Qed.
 
 (* ---- the contract with the byte-exact strcase functions put in (lib/Strcase.v; facts of
    proofs/StrcaseProofs.v), for names of the documented shape: lowerCamel property names and
